@@ -70,6 +70,17 @@ func c10Drive(t *fw.T, doc []byte, ctor string) (units []jsonUnit, firstErr erro
 			if !sawError {
 				firstErr = p.Err()
 				sawError = true
+				// State() describes the innermost open container also right after the error report
+				if st := p.State(); len(stack) > 0 && in.Offset() == before {
+					top := stack[len(stack)-1]
+					if top.obj != (st == json.ObjectKeyState || st == json.ObjectValueState) || !top.obj && st != json.ArrayState {
+						t.Failf("after the error report State()=%v while the innermost open container is %s", st, map[bool]string{true: "an object", false: "an array"}[top.obj])
+						return nil, nil, nil, false
+					}
+				} else if len(stack) == 0 && in.Offset() == before && st != json.ValueState {
+					t.Failf("after the error report State()=%v with no container open", st)
+					return nil, nil, nil, false
+				}
 			}
 			if in.Offset() == before {
 				sticky++
